@@ -1013,17 +1013,32 @@ fn parse_punctuated_nested_meta(
                 }
 
                 let attr_name = path.get_ident().unwrap().to_string();
+                // A parameter given twice, or together with its negation, is an error rather
+                // than "the last one wins".
+                let set = |slot: &mut Option<bool>, value: bool| {
+                    if slot.replace(value).is_some() {
+                        return Err(Error::new(
+                            path.span(),
+                            format!(
+                                "Attribute parameter `{}` is specified more than once or \
+                                 contradicts another one",
+                                quote! { #path },
+                            ),
+                        ));
+                    }
+                    Ok(())
+                };
                 match (wrapper_name, attr_name.as_str()) {
                     (None, "ignore") => info.enabled = Some(false),
-                    (None, "forward") => info.forward = Some(true),
-                    (Some("not"), "forward") => info.forward = Some(false),
-                    (None, "owned") => info.owned = Some(true),
-                    (None, "ref") => info.ref_ = Some(true),
-                    (None, "ref_mut") => info.ref_mut = Some(true),
-                    (None, "source") => info.source = Some(true),
-                    (Some("not"), "source") => info.source = Some(false),
-                    (None, "backtrace") => info.backtrace = Some(true),
-                    (Some("not"), "backtrace") => info.backtrace = Some(false),
+                    (None, "forward") => set(&mut info.forward, true)?,
+                    (Some("not"), "forward") => set(&mut info.forward, false)?,
+                    (None, "owned") => set(&mut info.owned, true)?,
+                    (None, "ref") => set(&mut info.ref_, true)?,
+                    (None, "ref_mut") => set(&mut info.ref_mut, true)?,
+                    (None, "source") => set(&mut info.source, true)?,
+                    (Some("not"), "source") => set(&mut info.source, false)?,
+                    (None, "backtrace") => set(&mut info.backtrace, true)?,
+                    (Some("not"), "backtrace") => set(&mut info.backtrace, false)?,
                     _ => {
                         return Err(Error::new(
                             path.span(),
